@@ -284,6 +284,19 @@ impl Beatmap {
             writeln!(writer, "{}: {}", MetadataKey::Tags, &self.tags)?;
         }
 
+        if self.beatmap_id > 0 {
+            writeln!(writer, "{}: {}", MetadataKey::BeatmapID, self.beatmap_id)?;
+        }
+
+        if self.beatmap_set_id > 0 {
+            writeln!(
+                writer,
+                "{}: {}",
+                MetadataKey::BeatmapSetID,
+                self.beatmap_set_id
+            )?;
+        }
+
         Ok(())
     }
 
